@@ -459,7 +459,7 @@ func coldStart(rec *stats.Rec, co *gen.Corpus) (sig, msg string) {
 		const W = 8
 		got := make([][]string, W)
 		counts := make([][]int, W)
-		panics := make([]string, W)
+		panics := make([]string, W+coldReaders)
 		var wg sync.WaitGroup
 		start := make(chan struct{})
 		for w := 0; w < W; w++ {
@@ -472,19 +472,59 @@ func coldStart(rec *stats.Rec, co *gen.Corpus) (sig, msg string) {
 					}
 				}()
 				<-start
-				for i := range objs {
-					o := objs[(i+w)%len(objs)]
-					d, n := lintCount(o, lint.GlobalRegistry())
-					got[w] = append(got[w], d)
-					counts[w] = append(counts[w], n)
+				for round := 0; round < 2; round++ {
+					for i := range objs {
+						o := objs[(i+w)%len(objs)]
+						d, n := lintCount(o, lint.GlobalRegistry())
+						if round == 0 {
+							got[w] = append(got[w], d)
+							counts[w] = append(counts[w], n)
+						}
+					}
 				}
 			}(w)
+		}
+		// ... while three more goroutines make the registry's *read* calls for the first time in this process
+		// (listing, names, sources, per-kind lists, lookups by source and name, a filter, the example
+		// configuration): a lazily built or lazily ordered table is built by whichever of them comes first.
+		// Each shard starts the walk at another call, so every call is the very first one in some process.
+		shard, _ := stats.Shard()
+		seen := make([][]string, coldReaders)
+		for r := 0; r < coldReaders; r++ {
+			wg.Add(1)
+			go func(r int) {
+				defer wg.Done()
+				defer func() {
+					if x := recover(); x != nil {
+						panics[W+r] = fmt.Sprint(x)
+					}
+				}()
+				<-start
+				for k := 0; k < (shard+r)%4; k++ {
+					runtime.Gosched()
+				}
+				seen[r] = make([]string, len(coldReads))
+				for k := range coldReads {
+					i := (shard*coldReaders + r*5 + k) % len(coldReads)
+					seen[r][i] = coldReads[i].f(lint.GlobalRegistry())
+				}
+			}(r)
 		}
 		close(start)
 		wg.Wait()
 		rec.Eval()
 		rec.Class(fmt.Sprintf("cold_start_phase_%d", phase))
 		g := lint.GlobalRegistry()
+		for r := 0; r < coldReaders; r++ {
+			if panics[W+r] != "" {
+				return "panic", fmt.Sprintf("first concurrent use of the global registry (phase %d): reader %d panicked: %s", phase, r, panics[W+r])
+			}
+			for i, cr := range coldReads {
+				if alone := cr.f(g); seen[r] != nil && seen[r][i] != alone {
+					return "read-differs-from-sequential|" + cr.name, fmt.Sprintf("first concurrent use of the global registry (phase %d): %s answered %s while lints were running and %s alone afterwards", phase, cr.name, short(seen[r][i]), short(alone))
+				}
+			}
+		}
 		want := map[gen.Kind]int{gen.Cert: len(g.CertificateLints().Lints()), gen.CRL: len(g.RevocationListLints().Lints()), gen.OCSP: len(g.OcspResponseLints().Lints())}
 		for w := 0; w < W; w++ {
 			if panics[w] != "" {
@@ -506,6 +546,93 @@ func coldStart(rec *stats.Rec, co *gen.Corpus) (sig, msg string) {
 		}
 	}
 	return "", ""
+}
+
+const coldReaders = 3
+
+func sortedLines(s string) string {
+	l := strings.Split(s, "\n")
+	sort.Strings(l)
+	return fmt.Sprintf("%d lines, hash %x", len(l), stats.HashS(l...))
+}
+
+// coldReads: the read-only calls of a registry, each reduced to a string that must not depend on when it is made.
+var coldReads = []struct {
+	name string
+	f    func(lint.Registry) string
+}{
+	{"WriteJSON", func(g lint.Registry) string {
+		var b bytes.Buffer
+		g.WriteJSON(&b)
+		return sortedLines(b.String())
+	}},
+	{"Names", func(g lint.Registry) string { return strings.Join(g.Names(), ",") }},
+	{"Sources", func(g lint.Registry) string {
+		var l []string
+		for _, s := range g.Sources() {
+			l = append(l, string(s))
+		}
+		sort.Strings(l)
+		return strings.Join(l, ",")
+	}},
+	{"Lints", func(g lint.Registry) string {
+		var l []string
+		for _, x := range g.CertificateLints().Lints() {
+			l = append(l, x.Name)
+		}
+		for _, x := range g.RevocationListLints().Lints() {
+			l = append(l, x.Name)
+		}
+		for _, x := range g.OcspResponseLints().Lints() {
+			l = append(l, x.Name)
+		}
+		sort.Strings(l)
+		return fmt.Sprintf("%d lints, hash %x", len(l), stats.HashS(l...))
+	}},
+	{"BySource", func(g lint.Registry) string {
+		var l []string
+		for _, s := range g.Sources() {
+			n := 0
+			for _, x := range g.CertificateLints().BySource(s) {
+				l = append(l, string(s)+"/"+x.Name)
+				n++
+			}
+			for _, x := range g.RevocationListLints().BySource(s) {
+				l = append(l, string(s)+"/"+x.Name)
+			}
+			for _, x := range g.OcspResponseLints().BySource(s) {
+				l = append(l, string(s)+"/"+x.Name)
+			}
+			//nolint:staticcheck
+			if d := len(g.BySource(s)); d != n {
+				l = append(l, fmt.Sprintf("%s: deprecated BySource %d vs %d", s, d, n))
+			}
+		}
+		sort.Strings(l)
+		return fmt.Sprintf("%d, hash %x", len(l), stats.HashS(l...))
+	}},
+	{"ByName", func(g lint.Registry) string {
+		miss := 0
+		for _, n := range g.Names() {
+			if g.CertificateLints().ByName(n) == nil && g.RevocationListLints().ByName(n) == nil && g.OcspResponseLints().ByName(n) == nil {
+				miss++
+			}
+		}
+		return fmt.Sprintf("%d listed names without a lint", miss)
+	}},
+	{"Filter", func(g lint.Registry) string {
+		r, err := g.Filter(lint.FilterOptions{IncludeSources: lint.SourceList{lint.RFC5280, lint.CABFBaselineRequirements, lint.Community}, ExcludeNames: []string{"e_ca_country_name_missing"}})
+		if err != nil {
+			return "error " + err.Error()
+		}
+		n := r.Names()
+		return fmt.Sprintf("%d names, hash %x", len(n), stats.HashS(n...))
+	}},
+	{"DefaultConfiguration", func(g lint.Registry) string {
+		b, err := g.DefaultConfiguration()
+		return fmt.Sprintf("%x %v", stats.Hash(b), err)
+	}},
+	{"GetConfiguration", func(g lint.Registry) string { _ = g.GetConfiguration(); return "ok" }},
 }
 
 type coldLint struct{}
